@@ -9,7 +9,7 @@ import UnicLocale.Spec.TablesWF
 import UnicLocale.Lemmas.Raw
 import UnicLocale.Model.Ops
 
-namespace UL
+namespace UL.Mm
 
 /-! ### what a successful look-up tells (soundness half of the binary search; by definition) -/
 
@@ -505,7 +505,7 @@ theorem firstOf_maxOf {T : Tables} {mx m : Triple} (h : firstOf T mx = some m) :
 /-! ### `LanguageIdentifier` / `Locale` level -/
 
 /-- writing a triple into the three subtag fields (lib.rs:366-375, 391-401) -/
-def LangId.withTriple (x : LangId) (t : Triple) : LangId :=
+def _root_.UL.LangId.withTriple (x : LangId) (t : Triple) : LangId :=
   { x with language := t.1, script := t.2.1, region := t.2.2 }
 
 theorem applyTriple_none (x : LangId) : LangId.applyTriple x (.ok none) = .ok (x, false) := rfl
@@ -633,4 +633,4 @@ def MaxMin.tiny2 : Tables where
 
 theorem MaxMin.tiny2_wf : tablesWF MaxMin.tiny2 = true := by decide
 
-end UL
+end UL.Mm
